@@ -181,7 +181,12 @@ pub fn j_epoch(op: usize, ts: TimeScale, a: i128, s: i128, out: &mut Local) {
     let check = format!("c14.epoch_{}", OPS[op]);
     let args = vec![scale_name(ts).to_string(), enc(a), enc(s)];
     if s == 0 {
-        out.dc(1);
+        // "a zero step yields zero", and on an epoch the operations act on its elapsed time: the reference epoch
+        match got {
+            Ok(r) if r.time_scale == ts && alpha(r.duration) == 0 => out.ok(1, true, 40 + op as u64),
+            Ok(r) => out.viol(&check, "zero-step".into(), args, format!("{} 0", scale_name(ts)), format!("{} {}", scale_name(r.time_scale), alpha(r.duration))),
+            Err(p) => out.viol(&check, format!("panic:{},zero-step", p.class()), args, "no panic".into(), format!("{} {}", p.loc, p.msg)),
+        }
         return;
     }
     let (t, f) = model(op, a, s);
